@@ -166,6 +166,14 @@ Section Frame.
     - intro Hne. rewrite purge_nonempty by congruence. exact H2.
   Qed.
 
+  Lemma body_calc_frame f s0 v p : stack s0 <> [] ->
+    Fr s0 (fst (calc_body (calc f sy pp) sy pp s0 v p)).
+  Proof.
+    intro Hs. apply body_frame. intros s' w q [H1 H2]. destruct (calc_frame f s' w q) as [I1 I2]. split.
+    - now rewrite I1.
+    - eapply incl_tran; [exact H2|]. apply I2. now rewrite H1.
+  Qed.
+
   Lemma calc_stack' fuel s v p : stack (fst (calc fuel sy pp s v p)) = stack s.
   Proof. exact (proj1 (calc_frame fuel s v p)). Qed.
 
